@@ -29,6 +29,19 @@ class V:
             it.append(SET(self.end, "%s + %s" % (self.begin, n)))
         return it
 
+    def base_field(self, qual_prefix, k):
+        """k-th field of the (transitive) base class whose qualified name starts with qual_prefix"""
+        u = self.u
+        p = u.path_to(self.rec, qual_prefix)
+        cur = u.rec(self.rec)
+        for part in [x for x in p.split(".") if x]:
+            nxt = [b for b in cur["bases"] if b["field"] == part][0]
+            cur = u.rec(nxt["cname"])
+        return self.expr + p + "." + cur["fields"][k]["name"]
+
+    def block_length(self):
+        return self.base_field("sbepp::detail::entry_base", 0)
+
     def field(self, k):
         """k-th own field of the most derived record (e.g. entry_base::block_length)"""
         return self.expr + "." + self.u.rec(self.rec)["fields"][k]["name"]
